@@ -102,11 +102,11 @@ type Sess struct {
 	kept       *keptDump
 	stale      []ecs.CachedFilter // handles of filters that were unregistered
 	replica    map[ecs.Entity]*replicaEnt
-	gmaps      map[string]gMap      // long-lived generic MapN mappers (C18)
-	gex        [2]*gexState         // long-lived generic Exchange objects (C18)
-	gsingles   map[string]*gSingle  // long-lived generic Map[T] mappers (C18)
+	gmaps      map[string]gMap         // long-lived generic MapN mappers (C18)
+	gex        [2]*gexState            // long-lived generic Exchange objects (C18)
+	gsingles   map[string]*gSingle     // long-lived generic Map[T] mappers (C18)
 	builders   map[string]*ecs.Builder // long-lived builders, by configuration
-	resMappers map[string][]resAcc // long-lived generic.Resource mappers (C20)
+	resMappers map[string][]resAcc     // long-lived generic.Resource mappers (C20)
 	Res        *ResModel
 	ResIDs     []ecs.ResID
 	ResKeys    []string
@@ -136,7 +136,13 @@ func NewSess(cfg Cfg, o Opts) *Sess {
 func (s *Sess) registerType(key string) {
 	info := infoOf(key)
 	id := ecs.TypeID(s.W, info.Type)
-	if _, ok := s.idNum[id]; ok {
+	if n, ok := s.idNum[id]; ok {
+		if s.M.Types[n].Key != key {
+			// (the arrays are kept in step, so that the history can go on and be replayed)
+			s.fail("registry.shared", "type %v was given the ID of the different type %v", info.Type, s.M.Types[n].Type)
+			s.IDs = append(s.IDs, id)
+			s.M.Types = append(s.M.Types, info)
+		}
 		return
 	}
 	s.idNum[id] = len(s.IDs)
@@ -190,7 +196,7 @@ func (s *Sess) value(id int, k int) any {
 	info := s.M.Types[id]
 	v := reflect.New(info.Type)
 	if info.Size > 0 {
-		copy(unsafe.Slice((*byte)(v.UnsafePointer()), info.Size), Pattern(k, info.Size))
+		copy(unsafe.Slice((*byte)(v.UnsafePointer()), info.Size), info.Pat(k))
 	}
 	return v.Interface()
 }
@@ -536,7 +542,7 @@ func (s *Sess) call(op *Op, out *Outcome) {
 			for q.Next() {
 				if q.Entity() == e {
 					if n > 0 {
-						copy(unsafe.Slice((*byte)(q.Get(s.IDs[op.ID])), n), Pattern(op.Val, n))
+						copy(unsafe.Slice((*byte)(q.Get(s.IDs[op.ID])), n), s.M.Types[op.ID].Pat(op.Val))
 					}
 					found = true
 					q.Close()
@@ -547,7 +553,7 @@ func (s *Sess) call(op *Op, out *Outcome) {
 				s.fail("query.miss", "query All(%d) did not visit %v which has the component", op.ID, e)
 			}
 		} else if n > 0 {
-			copy(unsafe.Slice((*byte)(w.Get(e, s.IDs[op.ID])), n), Pattern(op.Val, n))
+			copy(unsafe.Slice((*byte)(w.Get(e, s.IDs[op.ID])), n), s.M.Types[op.ID].Pat(op.Val))
 		}
 	case "RelSet":
 		w.Relations().Set(entOf(*op.E), s.IDs[*op.Rel], entOf(*op.T))
@@ -759,7 +765,7 @@ func (s *Sess) visitNew(op *Op) func(q *ecs.Query) {
 				var want []byte
 				for i, a := range op.Add {
 					if a == id {
-						want = Pattern(op.Vals[i], s.M.Types[id].Size)
+						want = s.M.Types[id].Pat(op.Vals[i])
 					}
 				}
 				if got := unsafe.Slice((*byte)(p), len(want)); !bytes.Equal(got, want) {
@@ -868,7 +874,7 @@ func (s *Sess) apply(op *Op, out *Outcome) []ExpEvent {
 			exp = append(exp, ev)
 		}
 	case "Set", "WritePtr":
-		m.Alive[entOf(*op.E)].Comps[op.ID] = Pattern(op.Val, m.Types[op.ID].Size)
+		m.Alive[entOf(*op.E)].Comps[op.ID] = m.Types[op.ID].Pat(op.Val)
 	case "RelSet":
 		if ev, ch := m.SetTarget(entOf(*op.E), target); ch {
 			exp = append(exp, ev)
